@@ -927,7 +927,7 @@ func c20ExpoFixed() []*c20Case {
 // Every case is "plain" in the sense of c20PlainRefs, so the residual-reference rule applies to all of them.
 func c20GenEmbedded(r *vh.Rng) (*c20Case, string) {
 	cs := &c20Case{files: c20DirEntries()}
-	lits := []string{"", "", "pre-", "-post", "/etc/", "/x", "user@", ".example.org", ":25", "a b", "\u00e9", "tcp://", "=", "$", "{env:H}", "_", "#", "{", "}x", "\\"}
+	lits := []string{"", "", "pre-", "-post", "/etc/", "/x", "user@", ".example.org", ":25", "a b", "\u00e9", "tcp://", "=", "$", "{env:H}", "_", "#", "{", "}x"}
 	names := []string{"host", "dom", "zero", "nope", "hostnme", "late", "m1", "empty", "a.b", "x-y", "\u00e9", "1"}
 	ref := func() string { return "$(" + names[r.Intn(len(names))] + ")" }
 	arg := func() string {
@@ -943,7 +943,7 @@ func c20GenEmbedded(r *vh.Rng) (*c20Case, string) {
 			m := ref()
 			a = lits[r.Intn(len(lits))] + m + m + lits[r.Intn(len(lits))] + m
 		}
-		if a == "" || strings.ContainsAny(a, " #{}\\") || r.Chance(15) {
+		if a == "" || strings.ContainsAny(a, " #{}") || r.Chance(15) {
 			return "\"" + a + "\""
 		}
 		return a
@@ -1023,10 +1023,13 @@ func c20GenSameLine(r *vh.Rng) (*c20Case, string) {
 		n = 1 + r.Intn(40)
 	case x < 50:
 		n = 240 + r.Intn(17)
-	case x < 92:
-		n = 257 + r.Intn(80)
+	case x < 97:
+		n = 257 + r.Intn(60)
 	default:
-		n = 600 + r.Intn(1500)
+		n = 400 + r.Intn(400)
+	}
+	if vh.Thorough() && r.Chance(2) {
+		n = 1000 + r.Intn(3000) // recursion depth of the parser grows with the number of lines
 	}
 	decls := []string{"$(m1) = v }", "(sa) }", "$(m2) = v w }", "$(mm) = \"a b\" }", "$(m1) = $(m2) }", "(sb) }"}
 	var b strings.Builder
@@ -1282,7 +1285,7 @@ func TestVerifC20Parse(t *testing.T) {
 		}
 		if i%50 == 13 {
 			cs, tag := c20GenSameLine(r)
-			rn.runCase(out, cs, i%3 == 0, tag)
+			rn.runCase(out, cs, i%12 == 1, tag)
 			continue
 		}
 		if i%20 == 9 {
